@@ -8,6 +8,6 @@ Extraction Language OCaml.
 Extraction "../ocaml/c02/model.ml" hm_new hm_step hm_run hm_into_handlers hm_words hm_r2s
   hm_orphans hm_handlers melements used sm_check sm_applicable
   th_new th_run th_erase th_words th_handlers th_r2s th_ot ot_orphans ot_by
-  ids_check reader_dispatch orphaner_tick_breaks old_ids orphaned_since c02_trace_ok acc_init acc_step acc_run final_ok exhaust_ok
+  ids_check reader_dispatch orphaner_tick_breaks old_ids c02_trace_ok acc_init acc_step acc_run final_ok exhaust_ok
   read_frames ConnFail.parse_frame
   Z.of_N. (* Z.of_N only so that the shared conv.ml finds the type z *)
